@@ -20,7 +20,8 @@ sys.path.insert(0, HERE)
 import extract  # noqa: E402
 
 CORPUS = os.path.join(VERIF, 'corpus')
-SCRATCH_ROOT = os.environ.get('CFR_SCRATCH', '/tmp/cfr-selftest')
+# per process: several checks may run at the same time (each thorough check replays its corpus entries)
+SCRATCH_ROOT = os.environ.get('CFR_SCRATCH', '/tmp/cfr-selftest-%d' % os.getpid())
 
 
 def load_corpus():
@@ -120,12 +121,17 @@ def run_entries(corpus, jobs, all_pids):
     return results
 
 
-def cleanup(keep_targets=False):
-    shutil.rmtree(SCRATCH_ROOT, ignore_errors=True)
-    if not keep_targets:
-        # scratch target dirs are named target-<config>-<hash of the scratch path>
+def cleanup(keep_targets=False, roots=None):
+    import hashlib
+    roots = [SCRATCH_ROOT] + list(roots or [])
+    for r in roots:
+        shutil.rmtree(r, ignore_errors=True)
+    if not keep_targets and os.path.isdir(extract.WORK):
+        # scratch target dirs are named target-<config>-<hash of the scratch path>: remove those of this process's
+        # slots only (another check may be building in its own)
+        mine = {hashlib.sha1(os.path.join(r, 'slot%d' % k, 'repo').encode()).hexdigest()[:8] for r in roots for k in range(64)}
         for d in os.listdir(extract.WORK):
-            if d.startswith('target-') and d.count('-') >= 2:
+            if d.startswith('target-') and d.count('-') >= 2 and d.rsplit('-', 1)[1] in mine:
                 shutil.rmtree(os.path.join(extract.WORK, d), ignore_errors=True)
 
 
